@@ -735,6 +735,9 @@ class Interp:
             return len(x) if isinstance(x, (list, dict, tuple)) else x if isinstance(x, int) else 0
 
         def strategy(state, attempt):
+            if st.get("strat_fail_at") == attempt:
+                # the user's wait strategy itself raises (e.g. "give up after n polls" implemented as an exception)
+                raise _uexc(USER_ERRORS[st.get("fail_err", "ValueError")]("strategy gave up"))
             i = min(attempt - 1, len(decisions) - 1)
             d = decisions[i] if attempt - 1 < len(decisions) else ["stop"]
             if until is not None:
